@@ -36,7 +36,7 @@ ASSUMPTIONS = [
 MIN_MONITOR = {"mon.name_oracle": 50, "mon.value_oracle": 50, "mon.clash_oracle": 10}
 SHARD_TIMEOUT = {"quick": 900, "thorough": 7200}
 N_PROGRAMS = {"quick": 700, "thorough": 15000}
-OPTS = {"no_loopy": True, "dw_prob": 0.3}
+OPTS = {"dw_prob": 0.3}
 
 RESERVED = re.compile(r"^(_pt_.*|_[0-9]+|_r[0-9]+|_in[0-9]+)$")
 FIXED = ["pt_temp", "temp_0", "x_dim0", "acc_x", "_temp", "pt_data", "_ptt", "out", "_pt", "in0",
